@@ -29,7 +29,7 @@ TypeOf(i) == Bake(Cat[i].T, "")
 \* functions, which must behave like a default-configured instance
 CfgN(n) ==
   [Cfg0 EXCEPT !.protoArrays = (n \in {"pa", "both"}), !.protoTime = (n \in {"pt", "both", "mkboth"}),
-               !.marker = (CASE n = "mk" -> "plain" [] n = "mktag" -> "tagged" [] n = "mkboth" -> "both" [] OTHER -> "none")]
+               !.marker = (CASE n = "mk" -> "plain" [] n = "mktag" -> "tagged" [] n = "mkboth" -> "both" [] n = "mkkind" -> "kind" [] OTHER -> "none")]
 SysCfg(i) == CfgN(Cat[i].cfg)
 Enc(i, k) == Encode(SysCfg(i), TypeOf(i), Cat[i].vals[k])
 Prefixes == {<<>>, <<1>>, <<1, 2, 3>>}
